@@ -15,7 +15,7 @@ function makePool() {
   // (every call is logged: which calls an expression makes, and in which order, is part of its meaning)
   const fn = function f(x) { CALLS.push(x); return [this === undefined ? 'plain' : 'method', x] }
   const arr = [1, 2]
-  const obj = { p: 1, length: 7, q: { p: null } }
+  const obj = { p: 1, length: 7, q: { p: null, 'q.p': 'inner' }, 'q.p': 'dotted', 'p-1': 'dashed', 'p q': 'spaced', 'p.length': 'pl', 'length ': 'ls' }
   return [undefined, null, true, false, 0, -0, 1, NaN, '', 'x', '10', arr, obj, fn]
 }
 const POOL = makePool()
